@@ -172,11 +172,12 @@ class SkipExisting(WriterContract):
     target = "commonroad.common.writer.file_writer_interface.FileWriter._handle_file_path"
     case = "overwrite mode SKIP with an existing file"
     describe = "an existing file is left untouched: no write reaches the path"
+    KEEP = b"<keep/>"
 
     def build(self, F):
         sc, pps = self.scenario(F)
         fd, path = tempfile.mkstemp(suffix=".xml", prefix="verif_c15_", dir=scratch_dir("c15_"))
-        os.write(fd, b"<keep/>")
+        os.write(fd, self.KEEP)
         os.close(fd)
         return {"sc": sc, "pps": pps, "path": path, "args": []}
 
@@ -195,7 +196,13 @@ class SkipExisting(WriterContract):
         yield ("raises nothing", out.exc is None)
         if out.exc is None:
             content, touched = out.value
-            yield ("file left byte-for-byte untouched", content == b"<keep/>" and not touched)
+            yield ("file left byte-for-byte untouched", content == self.KEEP and not touched)
+
+
+@register
+class SkipExistingEmptyFile(SkipExisting):
+    case = "overwrite mode SKIP with an existing file of 0 bytes"
+    KEEP = b""
 
 
 # ------------------------------------------------------------------------------ protobuf writers
@@ -389,3 +396,76 @@ for _fmt in (FileFormat.XML, FileFormat.PROTOBUF):
             if out.exc is None:
                 content, touched = out.value
                 yield ("file left byte-for-byte untouched", content == b"<keep/>" and not touched)
+
+
+@register
+class ProtobufWriterBetweenXmlWrites(WriterContract):
+    target = "commonroad.common.writer.file_writer_xml.XMLFileWriter.write_to_file"
+    case = "XML writer writes, a protobuf writer writes the same scenario (with a lanelet network), the XML writer writes again"
+    budget_s = 900
+    describe = "a writer of the other format used in between does not change what this writer writes (nor the scenario it writes)"
+
+    def scenario(self, F):
+        from commonroad.planning.planning_problem import PlanningProblemSet
+        from contracts.c02 import WEATHER, fits_int32
+
+        sc = mk_scenario(F, ("network",), weather=WEATHER)
+        fits_int32(F)
+        return sc, F.new(PlanningProblemSet)
+
+    def build(self, F):
+        sc, pps = self.scenario(F)
+        return {"sc": sc, "pps": pps, "args": []}
+
+    def invoke(self, F, inp):
+        w = F.new(CommonRoadFileWriter, inp["sc"], inp["pps"], decimal_precision=4, file_format=FileFormat.XML)
+        pa, pb = out_path(F, "c15_x1.xml"), out_path(F, "c15_x2.xml")
+        F.method(w, "write_to_file", pa, OverwriteExistingFile.ALWAYS)
+        p = F.new(CommonRoadFileWriter, inp["sc"], inp["pps"], file_format=FileFormat.PROTOBUF)
+        F.method(p, "write_to_file", out_path(F, "c15_between.pb"), OverwriteExistingFile.ALWAYS)
+        F.method(w, "write_to_file", pb, OverwriteExistingFile.ALWAYS)
+        return written(F, pa), written(F, pb)
+
+    def post(self, F, inp, out):
+        yield ("raises nothing", out.exc is None)
+        if out.exc is None:
+            a, b = out.value
+            yield ("both documents were written", a is not None and b is not None)
+            if a is not None and b is not None:
+                yield ("second XML document identical to the first", same_document(F, a, b))
+
+
+@register
+class XmlWriterBetweenPbWrites(PbWriterContract):
+    target = "commonroad.common.writer.file_writer_protobuf.ProtobufFileWriter.write_to_file"
+    case = "protobuf writer writes, an XML writer writes the same scenario (lanelet without type), the protobuf writer writes again"
+    summaries = ("float_to_str", "make_valid_orientation")
+    describe = "a writer of the other format used in between does not change what this writer writes (nor the scenario it writes)"
+
+    def scenario(self, F):
+        import numpy as np
+
+        from commonroad.planning.planning_problem import PlanningProblemSet
+        from commonroad.scenario.lanelet import Lanelet
+        from contracts.c02 import WEATHER, fits_int32
+
+        sc = mk_scenario(F, ("mini_network",), weather=WEATHER)
+        cv = lambda y: (np.array([[30.0, y + 1.0], [40.0, y + 1.25]]), np.array([[30.0, y + 0.5], [40.0, y + 0.75]]), np.array([[30.0, y], [40.0, y + 0.25]]))
+        F.method(sc, "add_objects", F.new(Lanelet, *cv(7.0), 4, [3, 2], [2, 3]))  # constructor defaults: no lanelet type; reference lists not ascending
+        fits_int32(F)
+        return sc, F.new(PlanningProblemSet)
+
+    def invoke(self, F, inp):
+        w = F.new(CommonRoadFileWriter, inp["sc"], inp["pps"], file_format=FileFormat.PROTOBUF)
+        pa, pb = out_path(F, "c15_p1.pb"), out_path(F, "c15_p2.pb")
+        F.method(w, "write_to_file", pa, OverwriteExistingFile.ALWAYS)
+        x = F.new(CommonRoadFileWriter, inp["sc"], inp["pps"], decimal_precision=4, file_format=FileFormat.XML)
+        F.method(x, "write_to_file", out_path(F, "c15_between.xml"), OverwriteExistingFile.ALWAYS)
+        F.method(w, "write_to_file", pb, OverwriteExistingFile.ALWAYS)
+        return pb_written(F, pa), pb_written(F, pb)
+
+    def post(self, F, inp, out):
+        yield ("raises nothing", out.exc is None)
+        if out.exc is None:
+            a, b = out.value
+            yield ("second protobuf document identical to the first", same_pb(F, a, b))
